@@ -615,6 +615,15 @@ where
 
                     // all messages are dealt with
                     None => {
+                        // Requests that arrived while the queue was full were left undecoded in
+                        // the read buffer and no further I/O event is due for them; decode them
+                        // now that the queue has been worked off.
+                        if !this.read_buf.is_empty() && self.as_mut().poll_request(cx)? {
+                            continue 'res;
+                        }
+
+                        let this = self.as_mut().project();
+
                         // start keep-alive only if request payload is fully read/drained
                         this.flags.set(
                             Flags::KEEP_ALIVE,
